@@ -117,6 +117,15 @@ def _slice_piece(p, lo, w):
             if t.name == 'sel':
                 return sel(t.ops[0], slice_(t.ops[1], lo2, w), slice_(t.ops[2], lo2, w))
             return op(t.name, w, *[slice_(o, lo2, w) for o in t.ops])
+        if t.kind == 'op' and t.name == 'sum':
+            # known-zero high bits: if sum_i coef_i * max(op_i) + k cannot wrap, bits above its length are 0
+            bl = _sum_bitlen(t)
+            if bl is not None:
+                lo2 = p[2] + lo
+                if lo2 >= bl:
+                    return (('c', w, 0),)
+                if lo2 + w > bl:
+                    return (('s', t, lo2, bl - lo2), ('c', lo2 + w - bl, 0))
         return (('s', t, p[2] + lo, w),)
     if k == 'r':
         return (p[1],) if w == 1 else (('r', p[1], w),)
@@ -124,6 +133,30 @@ def _slice_piece(p, lo, w):
 
 
 BITWISE_CLOSED = ('not', 'and', 'or', 'xor', 'sel')
+
+
+def _max_unsigned(bv):
+    """upper bound of a BV read as an unsigned number: constant pieces exact, everything else all-ones"""
+    v = 0
+    pos = 0
+    for p in bv:
+        n = pw(p)
+        if p[0] == 'c':
+            v |= p[2] << pos
+        else:
+            v |= ((1 << n) - 1) << pos
+        pos += n
+    return v
+
+
+def _sum_bitlen(t):
+    k, coefs = t.attrs
+    tot = k
+    for o, c in zip(t.ops, coefs):
+        tot += c * _max_unsigned(o)
+    if tot >= (1 << t.width):
+        return None
+    return tot.bit_length()
 
 
 def _merge(a, b):
@@ -232,6 +265,29 @@ def boundaries(bv):
         pos += pw(p)
         s.add(pos)
     return s
+
+
+def co_split(*bvs):
+    """cut several equal-width BVs at the union of their piece boundaries until every segment of every BV
+    is a single piece (slicing can itself introduce boundaries, hence the fixpoint); returns list of tuples of pieces"""
+    cuts = set()
+    for b in bvs:
+        cuts |= boundaries(b)
+    while True:
+        cl = sorted(cuts)
+        segs = [split_at(b, cl) for b in bvs]
+        more = False
+        for sg in segs:
+            pos = 0
+            for i, piece_bv in enumerate(sg):
+                if len(piece_bv) > 1:
+                    q = cl[i - 1] if i else 0
+                    for p in piece_bv:
+                        q += pw(p)
+                        cuts.add(q)
+                    more = True
+        if not more:
+            return [tuple(sg[i][0] for sg in segs) for i in range(len(cl))]
 
 
 def split_at(bv, cuts):
@@ -379,6 +435,13 @@ def icmp(pred, a, b):
                 return icmp(pred, la, lb)
     if pred in ('eq', 'ne'):
         for (x, z) in ((a, b), (b, a)):
+            if len(x) == 1 and x[0][0] == 'r' and is_const(z) and const_val(z) in (0, (1 << w) - 1):
+                r = (x[0][1],) if const_val(z) else not_((x[0][1],))     # rep(c) == 1..1 <=> c
+                return r if pred == 'eq' else not_(r)
+    if pred in ('eq', 'ne') and len(a) == 1 and len(b) == 1 and a[0][0] == 'r' and b[0][0] == 'r':
+        return icmp(pred, (a[0][1],), (b[0][1],))      # rep(x) == rep(y)  <=>  x == y
+    if pred in ('eq', 'ne'):
+        for (x, z) in ((a, b), (b, a)):
             if is_const(z) and const_val(z) == 0 and len(x) >= 1 and not is_const(x):
                 # X == 0  with constant pieces inside X: zero pieces drop out, a non-zero constant piece decides
                 if any(p[0] == 'c' and p[2] != 0 for p in x):
@@ -438,6 +501,30 @@ def fcmp(pred, a, b):
         return const(1, 0)
     if pred in _FSWAP:
         pred, a, b = _FSWAP[pred], b, a
+    if pred in ('une', 'oeq', 'one', 'ueq'):
+        # X compared with +-0.0 where every bit of X is 0 or one and the same bit b, and some non-sign bit is b:
+        # X is (+-)0 iff b = 0, and for b = 1 X is non-zero or NaN.  une/one(NaN excluded only if exponent not all ones)
+        for (x, z) in ((a, b), (b, a)):
+            if is_const(z) and const_val(z) & ~(1 << (width(z) - 1)) == 0 and not is_const(x):
+                bit = None
+                okp = True
+                nonsign = False
+                pos = 0
+                w_ = width(x)
+                for p in x:
+                    if p[0] == 'c':
+                        okp = okp and p[2] == 0
+                    else:
+                        q = p[1] if p[0] == 'r' else (p if (p[0] == 's' and p[3] == 1) else None)
+                        if q is None or (bit is not None and q != bit):
+                            okp = False
+                        else:
+                            bit = q
+                            if pos < w_ - 1:
+                                nonsign = True
+                    pos += pw(p)
+                if okp and bit is not None and nonsign and pred in ('une', 'oeq'):
+                    return (bit,) if pred == 'une' else not_((bit,))
     if pred in ('uno', 'ord'):
         # x uno c  ==  x uno x   for any non-NaN constant c  (LLVM's canonical isnan is "fcmp uno x, 0.0")
         for (x, c) in ((a, b), (b, a)):
@@ -535,10 +622,15 @@ def _bitwise(name, a, b):
                     q += rw
                     cuts.add(q)
             pos += pw(p)
-    cuts = sorted(cuts)
+    if cuts:
+        marks = const(wa, 0)
+        marks = tuple(('c', c - p, 0) for p, c in zip([0] + sorted(cuts)[:-1], sorted(cuts)))
+        segs = co_split(a, b, marks)
+    else:
+        segs = co_split(a, b)
     out = []
-    for x, y in zip(split_at(a, cuts), split_at(b, cuts)):
-        out.extend(_bitwise_seg(name, x[0], y[0]))
+    for sg in segs:
+        out.extend(_bitwise_seg(name, sg[0], sg[1]))
     return norm(out)
 
 
@@ -757,10 +849,13 @@ def sel(c, x, y):
     x, y = canon(x), canon(y)
     if x == y:
         return x
-    cuts = sorted(boundaries(x) | boundaries(y))
+    if all(p[0] == 'u' for p in y):
+        return x                                   # an undefined arm may be refined to the other arm
+    if all(p[0] == 'u' for p in x):
+        return y
     out = []
-    for xs, ys in zip(split_at(x, cuts), split_at(y, cuts)):
-        out.extend(_sel_seg(c, xs, ys))
+    for (xp_, yp_) in co_split(x, y):
+        out.extend(_sel_seg(c, (xp_,), (yp_,)))
     return norm(out)
 
 
